@@ -3,6 +3,7 @@
 //!   c13 tie N             -> JSON lines: generated task trees x pool sizes, outcome of an isolated run,
 //!                            sequential value, the tree as a term of the Coq model (coq/Model/Pool.v)
 //!   c13 corpus            -> the former deadlock witnesses (nested pool) x pool sizes; violations
+//!   c13 groups N          -> JSON lines: wait on id arrays (group sizes 0,1,2.., id shapes), results with shapes
 //!   c13 search N          -> JSON lines: larger trees, wait-order and message-order checks; violations
 //!   c13 one MAX SRC [CAP_MS] -> run one program in a child with a cap (for replays / experiments)
 use std::io::Read;
@@ -69,7 +70,11 @@ impl Task {
             })
             .collect();
         let w = if par { "wait" } else { "" };
-        if fs.len() == 1 {
+        if fs.len() == 1 && self.rev_wait {
+            // a group of exactly one task whose id reaches wait as an array of shape [1]:
+            // the result must be an array with one row (first of a scalar would be an error)
+            format!("+{}⊢{w}[{}{}]", self.c, fs[0], work)
+        } else if fs.len() == 1 {
             format!("+{}{w} {}{}", self.c, fs[0], work)
         } else {
             let rev = if self.rev_wait { "⇌" } else { "" };
@@ -92,7 +97,7 @@ impl Task {
         if self.rev_wait {
             ids.reverse();
         }
-        if n == 1 {
+        if n == 1 && !self.rev_wait {
             s.push_str("; Wait 1");
         } else {
             s.push_str(&format!("; WaitAll [] [{}] []", ids.iter().map(|i| i.to_string()).collect::<Vec<_>>().join(";")));
@@ -128,7 +133,7 @@ fn nested_family(r: &mut Rng, n: usize, inner_pool: bool, via_spawn: bool) -> Ta
             } else {
                 vec![inner]
             };
-            Task { pool: true, work: r.below(10) as u32, c: 1, kids: mid, rev_wait: false }
+            Task { pool: true, work: r.below(10) as u32, c: 1, kids: mid, rev_wait: r.chance(1, 2) }
         })
         .collect();
     Task { pool: false, work: 0, c: 0, kids, rev_wait: false }
@@ -190,8 +195,45 @@ fn run_child(max: usize, src: &str, cap: Duration) -> Outcome {
     }
 }
 
+/// shape and data of a numeric value
+fn sd(v: &uiua::Value) -> Option<(Vec<usize>, Vec<f64>)> {
+    let sh: Vec<usize> = v.shape.iter().copied().collect();
+    match v {
+        uiua::Value::Num(a) => Some((sh, a.elements().copied().collect())),
+        uiua::Value::Byte(a) => Some((sh, a.elements().map(|x| *x as f64).collect())),
+        _ => None,
+    }
+}
+
+/// canonical text of a value: scalars as uiua shows them, arrays as `[shape]|data` (the shape is
+/// part of the comparison: [11] and 11, or shapes [3] and [3 1], differ)
+fn canon(v: &uiua::Value) -> String {
+    match sd(v) {
+        Some((sh, d)) if !sh.is_empty() => {
+            format!("[{}]|{}", sh.iter().map(|x| x.to_string()).collect::<Vec<_>>().join(" "), d.iter().map(|x| x.to_string()).collect::<Vec<_>>().join(" "))
+        }
+        _ => format!("{v:?}"),
+    }
+}
+
+fn canon_sd(sh: &[usize], d: &[f64]) -> String {
+    if sh.is_empty() && d.len() == 1 {
+        return format!("{}", d[0]);
+    }
+    format!("[{}]|{}", sh.iter().map(|x| x.to_string()).collect::<Vec<_>>().join(" "), d.iter().map(|x| x.to_string()).collect::<Vec<_>>().join(" "))
+}
+
 fn show_stack(st: &[uiua::Value]) -> String {
-    st.iter().map(|v| format!("{v:?}")).collect::<Vec<_>>().join(" | ")
+    st.iter().map(canon).collect::<Vec<_>>().join(" | ")
+}
+
+/// message of an error without its `line:col: ` prefix
+fn err_msg(e: &str) -> String {
+    let mut parts = e.splitn(3, ':');
+    match (parts.next(), parts.next(), parts.next()) {
+        (Some(a), Some(b), Some(rest)) if a.trim().parse::<usize>().is_ok() && b.trim().parse::<usize>().is_ok() => rest.trim().to_string(),
+        _ => e.trim().to_string(),
+    }
 }
 
 fn child_main(max: usize, src: &str) {
@@ -393,6 +435,323 @@ fn message_program(r: &mut Rng) -> (String, String, String) {
     }
 }
 
+// ------------------------------------------------------------------ task groups: shape of `wait` on id arrays
+
+/// result of one thread / of a wait: a numeric array or an error code
+/// (0 = "A thread errored", k = the child's own error "boomk", 999999 = anything else)
+#[derive(Clone, Debug, PartialEq)]
+enum WRes {
+    Val(Vec<usize>, Vec<f64>),
+    Err(u64),
+}
+
+fn err_code(msg: &str) -> u64 {
+    let m = err_msg(msg);
+    if m == "A thread errored" {
+        0
+    } else if let Some(k) = m.strip_prefix("boom") {
+        k.parse().unwrap_or(999999)
+    } else {
+        999999
+    }
+}
+
+fn wres_json(w: &WRes) -> String {
+    match w {
+        WRes::Val(s, d) => format!(
+            "{{\"s\":[{}],\"d\":[{}]}}",
+            s.iter().map(|x| x.to_string()).collect::<Vec<_>>().join(","),
+            d.iter().map(|x| format!("{}", *x as i64)).collect::<Vec<_>>().join(",")
+        ),
+        WRes::Err(c) => format!("{{\"e\":{c}}}"),
+    }
+}
+
+fn wres_text(w: &WRes) -> String {
+    match w {
+        WRes::Val(s, d) => canon_sd(s, d),
+        WRes::Err(0) => "ERROR A thread errored".into(),
+        WRes::Err(c) => format!("ERROR boom{c}"),
+    }
+}
+
+/// the glue of Uiua::wait (run.rs:1537-1605) on the results of the threads, in id-array order;
+/// replica of `wait_glue` in coq/Model/Pool.v (the tie evaluates the Coq one)
+fn glue(ish: &[usize], rows: &[WRes]) -> WRes {
+    if ish.is_empty() {
+        return match rows {
+            [WRes::Val(s, d)] => WRes::Val(s.clone(), d.clone()),
+            [WRes::Err(_)] => WRes::Err(0),
+            _ => WRes::Err(999999),
+        };
+    }
+    let mut data = Vec::new();
+    let mut rs: Option<Vec<usize>> = None;
+    for r in rows {
+        match r {
+            WRes::Err(c) => return WRes::Err(*c),
+            WRes::Val(s, d) => {
+                if let Some(s0) = &rs {
+                    if s0 != s {
+                        return WRes::Err(999999);
+                    }
+                } else {
+                    rs = Some(s.clone());
+                }
+                data.extend_from_slice(d);
+            }
+        }
+    }
+    let mut shape = ish.to_vec();
+    shape.extend(rs.unwrap_or_default());
+    WRes::Val(shape, data)
+}
+
+/// run a program in this process, top of the stack as a WRes
+fn run_wres(src: &str) -> WRes {
+    let mut env = uiua::Uiua::with_native_sys();
+    match env.run_str(src) {
+        Ok(_) => match env.take_stack().pop().as_ref().and_then(sd) {
+            Some((s, d)) => WRes::Val(s, d),
+            None => WRes::Err(999999),
+        },
+        Err(e) => WRes::Err(err_code(e.to_string().lines().next().unwrap_or(""))),
+    }
+}
+
+fn parse_outcome(o: &Outcome) -> Option<WRes> {
+    match o.kind {
+        "error" => Some(WRes::Err(err_code(&o.text))),
+        "value" => {
+            let t = o.text.trim();
+            if let Some(rest) = t.strip_prefix('[') {
+                let (sh, d) = rest.split_once("]|")?;
+                let shape: Vec<usize> = sh.split_whitespace().map(|x| x.parse().ok()).collect::<Option<_>>()?;
+                let data: Vec<f64> = d.split_whitespace().map(|x| x.parse().ok()).collect::<Option<_>>()?;
+                Some(WRes::Val(shape, data))
+            } else {
+                t.parse::<f64>().ok().map(|x| WRes::Val(vec![], vec![x]))
+            }
+        }
+        _ => None,
+    }
+}
+
+struct GCase {
+    kind: String,
+    par: String,
+    seq: Option<String>,
+    ish: Vec<usize>,
+    threads: Vec<String>, // sequential source of each thread, in id-array order
+}
+
+fn nums(xs: &[usize]) -> String {
+    if xs.is_empty() { "[]".into() } else { format!("[{}]", xs.iter().map(|x| x.to_string()).collect::<Vec<_>>().join(" ")) }
+}
+
+fn group_case(r: &mut Rng, form: usize) -> GCase {
+    let pk = |r: &mut Rng| if r.chance(1, 2) { "pool" } else { "spawn" };
+    let fs_scalar = ["+3", "+1×2", "×2", "+0⍥(+1)20"];
+    let fs_any = ["+3", "+1×2", "⊟.", "+⇡3", "⊟+1.", "+0⍥(+1)30"];
+    // group sizes: 1 is the interesting one
+    let size = |r: &mut Rng| *r.pick(&[1usize, 1, 1, 2, 3, 5]);
+    let (p, q, t) = (pk(r), pk(r), pk(r));
+    match form {
+        0 => {
+            let n = *r.pick(&[0usize, 1, 1, 1, 2, 3, 5]);
+            let f = if n == 0 { *r.pick(&fs_scalar) } else { *r.pick(&fs_any) };
+            let xs: Vec<usize> = (0..n).map(|_| r.below(20)).collect();
+            GCase { kind: "rows".into(), par: format!("wait≡{p}({f}) {}", nums(&xs)), seq: Some(format!("≡({f}) {}", nums(&xs))), ish: vec![n], threads: xs.iter().map(|x| format!("({f}) {x}")).collect() }
+        }
+        1 => {
+            let (a, b) = (size(r).min(3), size(r).min(3));
+            let f = *r.pick(&fs_any);
+            let x = format!("↯[{a} {b}]⇡{}", a * b);
+            GCase { kind: "rows-rows".into(), par: format!("wait≡≡{p}({f}) {x}"), seq: Some(format!("≡≡({f}) {x}")), ish: vec![a, b], threads: (0..a * b).map(|k| format!("({f}) {k}")).collect() }
+        }
+        2 => {
+            let (a, b) = (size(r).min(3), size(r).min(3));
+            let f = *r.pick(&fs_any);
+            let x = format!("↯[{a} {b}]⇡{}", a * b);
+            GCase {
+                kind: "nested2".into(),
+                par: format!("wait≡{p}(wait≡{q}({f})) {x}"),
+                seq: Some(format!("≡(≡({f})) {x}")),
+                ish: vec![a],
+                threads: (0..a).map(|i| format!("≡({f}) +{}⇡{b}", i * b)).collect(),
+            }
+        }
+        3 => {
+            let (a, b, c) = (size(r).min(2), size(r).min(2), size(r).min(3));
+            let f = *r.pick(&fs_any);
+            let x = format!("↯[{a} {b} {c}]⇡{}", a * b * c);
+            GCase {
+                kind: "nested3".into(),
+                par: format!("wait≡{p}(wait≡{q}(wait≡{t}({f}))) {x}"),
+                seq: Some(format!("≡(≡(≡({f}))) {x}")),
+                ish: vec![a],
+                threads: (0..a).map(|i| format!("≡(≡({f})) ↯[{b} {c}]+{}⇡{}", i * b * c, b * c)).collect(),
+            }
+        }
+        4 | 5 => {
+            let n = size(r).min(3);
+            let pair = r.chance(1, 3);
+            let items: Vec<(String, usize, &str)> = (0..n).map(|_| (if pair { format!("⊟+{}.", r.below(9)) } else { format!("+{}", r.below(9)) }, r.below(20), pk(r))).collect();
+            let lst = |par: bool| items.iter().map(|(f, x, p)| if par { format!("{p}({f}) {x}") } else { format!("({f}) {x}") }).collect::<Vec<_>>().join(" ");
+            let threads = items.iter().map(|(f, x, _)| format!("({f}) {x}")).collect();
+            if form == 4 {
+                GCase { kind: "list".into(), par: format!("wait[{}]", lst(true)), seq: Some(format!("[{}]", lst(false))), ish: vec![n], threads }
+            } else {
+                let ish = match r.below(3) {
+                    0 => vec![1, n],
+                    1 => vec![n, 1],
+                    _ => vec![1, 1, n],
+                };
+                GCase { kind: "reshaped-list".into(), par: format!("wait↯{}[{}]", nums(&ish), lst(true)), seq: None, ish, threads }
+            }
+        }
+        6 => {
+            let f = *r.pick(&fs_any);
+            let x = r.below(20);
+            GCase { kind: "fix".into(), par: format!("wait¤{p}({f}) {x}"), seq: Some(format!("¤({f}) {x}")), ish: vec![1], threads: vec![format!("({f}) {x}")] }
+        }
+        7 => {
+            let (a, b) = (size(r).min(3), size(r).min(2));
+            let xa: Vec<usize> = (0..a).map(|_| r.below(20)).collect();
+            let xb: Vec<usize> = (0..b).map(|_| r.below(20)).collect();
+            let mut threads = Vec::new();
+            for i in &xa {
+                for j in &xb {
+                    threads.push(format!("+ {i} {j}"));
+                }
+            }
+            GCase { kind: "table".into(), par: format!("wait⊞{p}(+) {} {}", nums(&xa), nums(&xb)), seq: Some(format!("⊞(+) {} {}", nums(&xa), nums(&xb))), ish: vec![a, b], threads }
+        }
+        8 => {
+            let f = *r.pick(&fs_any);
+            let x = r.below(20);
+            GCase { kind: "scalar".into(), par: format!("wait {p}({f}) {x}"), seq: Some(format!("({f}) {x}")), ish: vec![], threads: vec![format!("({f}) {x}")] }
+        }
+        9 => {
+            // exactly one failing child in a list (so that the sequential counterpart fails alike)
+            let n = size(r).min(3);
+            let bad = r.below(n);
+            let items: Vec<(String, usize, &str)> = (0..n).map(|i| (if i == bad { format!("⍤\"boom{}\"0", i + 1) } else { format!("+{}", r.below(9)) }, r.below(20), pk(r))).collect();
+            let lst = |par: bool| items.iter().map(|(f, x, p)| if par { format!("{p}({f}) {x}") } else { format!("({f}) {x}") }).collect::<Vec<_>>().join(" ");
+            GCase { kind: "err-list".into(), par: format!("wait[{}]", lst(true)), seq: Some(format!("[{}]", lst(false))), ish: vec![n], threads: items.iter().map(|(f, x, _)| format!("({f}) {x}")).collect() }
+        }
+        10 => {
+            let n = size(r).min(3);
+            let xs: Vec<usize> = (0..n).map(|i| 3 + i).collect();
+            let v = xs[r.below(n)];
+            let f = format!("⍤\"boom1\"≠{v}.");
+            GCase { kind: "err-rows".into(), par: format!("wait≡{p}({f}) {}", nums(&xs)), seq: Some(format!("≡({f}) {}", nums(&xs))), ish: vec![n], threads: xs.iter().map(|x| format!("({f}) {x}")).collect() }
+        }
+        11 => GCase { kind: "err-scalar".into(), par: format!("wait {p}(⍤\"boom1\"0) 5"), seq: None, ish: vec![], threads: vec!["(⍤\"boom1\"0) 5".into()] },
+        _ => {
+            let (a, b) = (size(r).min(3), size(r).min(2));
+            let v = r.below(a * b);
+            let f = format!("⍤\"boom1\"≠{v}.");
+            let x = format!("↯[{a} {b}]⇡{}", a * b);
+            GCase {
+                kind: "err-nested".into(),
+                par: format!("wait≡{p}(wait≡{q}({f})) {x}"),
+                seq: Some(format!("≡(≡({f})) {x}")),
+                ish: vec![a],
+                threads: (0..a).map(|i| format!("≡({f}) +{}⇡{b}", i * b)).collect(),
+            }
+        }
+    }
+}
+
+/// fixed group cases first (the seeded-defect shapes), then generated ones
+fn group_cases(n: usize, r: &mut Rng) -> Vec<GCase> {
+    let mut cs = vec![
+        GCase { kind: "rows".into(), par: "wait≡pool(+1×2) [5]".into(), seq: Some("≡(+1×2) [5]".into()), ish: vec![1], threads: vec!["(+1×2) 5".into()] },
+        GCase { kind: "rows".into(), par: "wait≡spawn(⇡) [3]".into(), seq: Some("≡(⇡) [3]".into()), ish: vec![1], threads: vec!["(⇡) 3".into()] },
+        GCase {
+            kind: "nested2".into(),
+            par: "wait≡pool(wait≡spawn(+1×2)) [[1] [2] [3]]".into(),
+            seq: Some("≡(≡(+1×2)) [[1] [2] [3]]".into()),
+            ish: vec![3],
+            threads: vec!["≡(+1×2) [1]".into(), "≡(+1×2) [2]".into(), "≡(+1×2) [3]".into()],
+        },
+        GCase { kind: "list".into(), par: "wait[spawn(+1) 5]".into(), seq: Some("[(+1) 5]".into()), ish: vec![1], threads: vec!["(+1) 5".into()] },
+        GCase { kind: "fix".into(), par: "wait¤pool(+1) 5".into(), seq: Some("¤(+1) 5".into()), ish: vec![1], threads: vec!["(+1) 5".into()] },
+        GCase { kind: "reshaped-list".into(), par: "wait↯[1 1][pool(⊟.) 4]".into(), seq: None, ish: vec![1, 1], threads: vec!["(⊟.) 4".into()] },
+        GCase { kind: "rows".into(), par: "wait≡pool(+1) []".into(), seq: Some("≡(+1) []".into()), ish: vec![0], threads: vec![] },
+        GCase { kind: "err-rows".into(), par: "wait≡pool(⍤\"boom1\"≠5.) [5]".into(), seq: Some("≡(⍤\"boom1\"≠5.) [5]".into()), ish: vec![1], threads: vec!["(⍤\"boom1\"≠5.) 5".into()] },
+        GCase { kind: "err-scalar".into(), par: "wait spawn(⍤\"boom1\"0) 5".into(), seq: None, ish: vec![], threads: vec!["(⍤\"boom1\"0) 5".into()] },
+    ];
+    let mut k = 0;
+    while cs.len() < n {
+        cs.push(group_case(r, k % 13));
+        k += 1;
+    }
+    cs
+}
+
+/// run group cases; one JSON line per case; `viol` = also print violation lines (search mode)
+fn run_groups(cs: Vec<GCase>, r: &mut Rng, viol: bool) -> (usize, usize) {
+    let mut jobs = Vec::new();
+    let mut ms = Vec::new();
+    for _ in &cs {
+        ms.push(*r.pick(&pool_sizes()));
+    }
+    for (c, m) in cs.iter().zip(&ms) {
+        jobs.push((*m, c.par.clone(), Duration::from_millis(3000)));
+    }
+    let outs = run_many(&jobs);
+    let mut bad = 0;
+    for (i, ((c, o), m)) in cs.iter().zip(&outs).zip(&ms).enumerate() {
+        let rows: Vec<WRes> = c.threads.iter().map(|t| run_wres(t)).collect();
+        let expect = glue(&c.ish, &rows);
+        let imp = parse_outcome(o);
+        let seq = c.seq.as_ref().map(|s| run_wres(s));
+        let ok_model = imp.as_ref() == Some(&expect);
+        let ok_seq = seq.is_none() || imp.as_ref() == seq.as_ref();
+        if !viol {
+            println!(
+                "{{\"g\":{i},\"kind\":{},\"src\":{},\"seq_src\":{},\"max\":{m},\"mx\":{},\"ish\":[{}],\"rows\":[{}],\"outcome\":{},\"value\":{},\"impl\":{},\"seq\":{},\"expect\":{},\"expect_text\":{},\"seq_text\":{}}}",
+                jstr(&c.kind),
+                jstr(&c.par),
+                c.seq.as_ref().map(|s| jstr(s)).unwrap_or("null".into()),
+                eff(*m),
+                c.ish.iter().map(|x| x.to_string()).collect::<Vec<_>>().join(","),
+                rows.iter().map(wres_json).collect::<Vec<_>>().join(","),
+                jstr(o.kind),
+                jstr(&o.text),
+                imp.as_ref().map(wres_json).unwrap_or("null".into()),
+                seq.as_ref().map(wres_json).unwrap_or("null".into()),
+                wres_json(&expect),
+                jstr(&wres_text(&expect)),
+                seq.as_ref().map(|s| jstr(&wres_text(s))).unwrap_or("null".into())
+            );
+        } else if !(ok_model && ok_seq) {
+            bad += 1;
+            println!(
+                "{{\"violation\":\"wait-shape\",\"key\":{},\"src\":{},\"max\":{},\"detail\":{}}}",
+                jstr(&format!("wait-shape:{}:{}", c.kind, o.kind)),
+                jstr(&c.par),
+                eff(*m),
+                jstr(&format!(
+                    "wait on an id array of shape {:?} gave {} {:?}; expected {} (results of the {} thread(s) in id order, id shape first){}",
+                    c.ish,
+                    o.kind,
+                    o.text,
+                    wres_text(&expect),
+                    rows.len(),
+                    match (&c.seq, &seq) {
+                        (Some(s), Some(v)) => format!("; sequential counterpart `{s}` gives {}", wres_text(v)),
+                        _ => String::new(),
+                    }
+                ))
+            );
+        }
+    }
+    (cs.len(), bad)
+}
+
 /// fixed regression corpus: the deadlock witnesses of the admission rule before d34a231
 /// (nested pool, directly and through a spawn), for every pool size
 fn corpus() {
@@ -541,6 +900,13 @@ fn search(n: usize, r: &mut Rng) {
             );
         }
     }
+    // --- C: task groups (sizes 0, 1, 2, ...; id-array shapes [1], [1 1], [n 1], [1 n], ...; failing children):
+    // the full result including its shape against the sequential counterpart and the wait glue
+    let cs = group_cases(2 * n, r);
+    let (gn, gbad) = run_groups(cs, r, true);
+    evals += gn;
+    kinds.insert("groups".into(), gn);
+    kinds.insert("groups:bad".into(), gbad);
     println!("{{\"evaluations\":{evals},\"timeouts_nested\":{timeouts_nested},\"kinds\":{}}}", serde_json::to_string(&kinds).unwrap());
 }
 
@@ -556,8 +922,14 @@ fn main() {
             println!("{{\"outcome\":{},\"value\":{},\"ms\":{}}}", jstr(o.kind), jstr(&o.text), o.ms);
         }
         "corpus" => corpus(),
+        "groups" => {
+            // tie: task groups of size 0, 1, 2, ... with varied id-array shapes
+            let n = a.get(2).and_then(|s| s.parse().ok()).unwrap_or(40);
+            let cs = group_cases(n, &mut r);
+            run_groups(cs, &mut r, false);
+        }
         "tie" => tie(a.get(2).and_then(|s| s.parse().ok()).unwrap_or(20), &mut r),
         "search" => search(a.get(2).and_then(|s| s.parse().ok()).unwrap_or(20), &mut r),
-        _ => eprintln!("usage: c13 child MAX SRC | one MAX SRC [CAP_MS] | corpus | tie N | search N"),
+        _ => eprintln!("usage: c13 child MAX SRC | one MAX SRC [CAP_MS] | corpus | groups N | tie N | search N"),
     }
 }
